@@ -10,6 +10,12 @@ Open Scope Z_scope.
 (* ---------- expressions ---------- *)
 Inductive expr :=
   | XNum (d : list Z)
+  | XDec (ip fp : list Z)                (* NUMBER DECIMAL NUMBER *)
+  | XFrac (fp : list Z)                  (* DECIMAL NUMBER *)
+  | XPct (n : list Z)                    (* NUMBER PERCENT *)
+  | XPowLit (a b : list Z)               (* NUMBER CARET NUMBER *)
+  | XStr (s : list Z)                    (* STRING: the lexeme with its quotes *)
+  | XErr (s : list Z)                    (* XLERROR: the lexeme *)
   | XVar (n : list Z)
   | XCell (k : Z) (lab : list Z)
   | XRange (k1 : Z) (l1 : list Z) (k2 : Z) (l2 : list Z)
@@ -21,6 +27,12 @@ Inductive expr :=
 Section ExprInd.
   Variable P : expr -> Prop.
   Hypothesis HNum : forall d, P (XNum d).
+  Hypothesis HDec : forall ip fp, P (XDec ip fp).
+  Hypothesis HFrac : forall fp, P (XFrac fp).
+  Hypothesis HPct : forall n, P (XPct n).
+  Hypothesis HPowLit : forall a b, P (XPowLit a b).
+  Hypothesis HStr : forall s, P (XStr s).
+  Hypothesis HErr : forall s, P (XErr s).
   Hypothesis HVar : forall n, P (XVar n).
   Hypothesis HCell : forall k l, P (XCell k l).
   Hypothesis HRange : forall k1 l1 k2 l2, P (XRange k1 l1 k2 l2).
@@ -30,7 +42,8 @@ Section ExprInd.
   Hypothesis HPar : forall e, P e -> P (XPar e).
   Fixpoint expr_ind' (e : expr) : P e :=
     match e with
-    | XNum d => HNum d | XVar n => HVar n | XCell k l => HCell k l | XRange k1 l1 k2 l2 => HRange k1 l1 k2 l2
+    | XNum d => HNum d | XDec ip fp => HDec ip fp | XFrac fp => HFrac fp | XPct n => HPct n | XPowLit a b => HPowLit a b
+    | XStr s => HStr s | XErr s => HErr s | XVar n => HVar n | XCell k l => HCell k l | XRange k1 l1 k2 l2 => HRange k1 l1 k2 l2
     | XCall n args => HCall n args ((fix go (l : list expr) : Forall P l :=
                         match l with [] => Forall_nil P | a :: r => Forall_cons a (expr_ind' a) (go r) end) args)
     | XNeg e => HNeg e (expr_ind' e)
@@ -48,6 +61,12 @@ Definition args_toks (f : expr -> list token) (l : list expr) : list token :=
 Fixpoint xtoks (e : expr) : list token :=
   match e with
   | XNum d => [Tok T_NUMBER d]
+  | XDec ip fp => [Tok T_NUMBER ip; Tok T_DECIMAL [46]; Tok T_NUMBER fp]
+  | XFrac fp => [Tok T_DECIMAL [46]; Tok T_NUMBER fp]
+  | XPct n => [Tok T_NUMBER n; Tok T_PERCENT [37]]
+  | XPowLit a b => [Tok T_NUMBER a; Tok T_CARET [94]; Tok T_NUMBER b]
+  | XStr s => [Tok T_STRING s]
+  | XErr s => [Tok T_XLERROR s]
   | XVar n => [Tok T_VARIABLE n]
   | XCell k l => [Tok k l]
   | XRange k1 l1 k2 l2 => [Tok k1 l1; Tok T_COLON [58]; Tok k2 l2]
@@ -75,6 +94,12 @@ Definition xvals (f : expr -> evres value) : list expr -> evres (list value) :=
 Fixpoint xval (h : host) (e : expr) : evres value :=
   match e with
   | XNum d => (ROk (VInt (digits_z d)), [])
+  | XDec ip fp => (ROk (decimal_value ip fp), [])
+  | XFrac fp => (ROk (decimal_value [] fp), [])
+  | XPct n => (ROk (VFlt (Qmake (digits_z n) 100)), [])
+  | XPowLit a b => (ROk (VInt (digits_z a ^ digits_z b)), [])
+  | XStr s => (ROk (VText (removelast (tl s))), [])
+  | XErr s => (RRaise (err_of_text s), [])           (* an error literal is raised: the whole formula reports it *)
   | XVar n => call_variable h n
   | XCell _ l => call_cell_value h l
   | XRange _ a _ b => call_range_value h a b
@@ -88,7 +113,9 @@ Fixpoint xval (h : host) (e : expr) : evres value :=
 Definition xtop (e : expr) : option binop := match e with XBin b _ _ => Some b | _ => None end.
 Fixpoint xwp (e : expr) : Prop :=
   match e with
-  | XNum _ | XVar _ => True
+  | XNum _ | XVar _ | XDec _ _ | XFrac _ | XStr _ | XErr _ => True
+  | XPct n => tok_is n 46 = false
+  | XPowLit a _ => tok_is a 46 = false
   | XCell k _ => In k cell_kinds
   | XRange k1 _ k2 _ => In k1 cell_kinds /\ In k2 cell_kinds
   | XCall _ args => (fix all (l : list expr) : Prop := match l with [] => True | a :: r => xwp a /\ all r end) args
@@ -136,6 +163,22 @@ Definition qC : Z := goto_target sC.
 Definition iSeqCC : Z := reduce_target qC T_COMMA.       (* expseqcomma : expseqcomma COMMA expression *)
 Definition sCR : Z := shift_target qSC T_RPAREN.
 Definition iCallN : Z := reduce_target sCR 0.
+(* literals: STRING, XLERROR, and the composite number forms *)
+Definition sS : Z := shift_target 0 T_STRING.
+Definition iS : Z := reduce_target sS 0.
+Definition sX : Z := shift_target 0 T_XLERROR.
+Definition iX : Z := reduce_target sX 0.
+Definition sAD : Z := shift_target sA T_DECIMAL.
+Definition sADN : Z := shift_target sAD T_NUMBER.
+Definition iDec : Z := reduce_target sADN 0.
+Definition sAP : Z := shift_target sA T_PERCENT.
+Definition iPct : Z := reduce_target sAP 0.
+Definition sAC : Z := shift_target sA T_CARET.
+Definition sACN : Z := shift_target sAC T_NUMBER.
+Definition iPow : Z := reduce_target sACN 0.
+Definition sD : Z := shift_target 0 T_DECIMAL.
+Definition sDN : Z := shift_target sD T_NUMBER.
+Definition iFrac : Z := reduce_target sDN 0.
 
 Definition prod_eqb (p : Z) (lhs len fn : Z) (rhs : list Z) : bool :=
   match prod_of p with
@@ -235,6 +278,27 @@ Proof. intros H1 H2.
                                        act_eqb (act_of (sColon c) c2) (Some (Shift (sCell2 c c2)))) cell_kinds) cell_kinds = true) as K by (vm_compute; reflexivity).
   rewrite forallb_forall in K. specialize (K c1 H1). rewrite forallb_forall in K. specialize (K c2 H2).
   apply andb_prop in K. destruct K as [A B]. split; apply act_eqb_eq; assumption. Qed.
+Lemma F_lit_shift s : ES s -> act_of s T_STRING = Some (Shift sS) /\ act_of s T_XLERROR = Some (Shift sX) /\ act_of s T_DECIMAL = Some (Shift sD).
+Proof. intros H.
+  assert (forallb (fun s => act_eqb (act_of s T_STRING) (Some (Shift sS)) && act_eqb (act_of s T_XLERROR) (Some (Shift sX)) &&
+                            act_eqb (act_of s T_DECIMAL) (Some (Shift sD))) es_list = true) as K by (vm_compute; reflexivity).
+  by_es K s H. apply andb_prop in K. destruct K as [K K3]. apply andb_prop in K. destruct K as [K1 K2].
+  repeat split; apply act_eqb_eq; assumption. Qed.
+Lemma F_lit_red k : follow k ->
+  act_of sS k = Some (Reduce iS) /\ act_of sX k = Some (Reduce iX) /\ act_of sADN k = Some (Reduce iDec) /\
+  act_of sAP k = Some (Reduce iPct) /\ act_of sACN k = Some (Reduce iPow) /\ act_of sDN k = Some (Reduce iFrac).
+Proof. intros H.
+  assert (forallb (fun k => act_eqb (act_of sS k) (Some (Reduce iS)) && act_eqb (act_of sX k) (Some (Reduce iX)) &&
+                            act_eqb (act_of sADN k) (Some (Reduce iDec)) && act_eqb (act_of sAP k) (Some (Reduce iPct)) &&
+                            act_eqb (act_of sACN k) (Some (Reduce iPow)) && act_eqb (act_of sDN k) (Some (Reduce iFrac))) follow_list = true) as K by (vm_compute; reflexivity).
+  by_follow K k H. repeat (apply andb_prop in K; destruct K as [K ?]). repeat split; apply act_eqb_eq; assumption. Qed.
+Lemma F_lit_closed :
+  act_of sA T_DECIMAL = Some (Shift sAD) /\ act_of sAD T_NUMBER = Some (Shift sADN) /\ act_of sA T_PERCENT = Some (Shift sAP) /\
+  act_of sA T_CARET = Some (Shift sAC) /\ act_of sAC T_NUMBER = Some (Shift sACN) /\ act_of sD T_NUMBER = Some (Shift sDN) /\
+  prod_of iS = Some (E, 1, 6, [T_STRING]) /\ prod_of iX = Some (E, 1, 14, [T_XLERROR]) /\
+  prod_of iDec = Some (E, 3, 5, [T_NUMBER; T_DECIMAL; T_NUMBER]) /\ prod_of iPct = Some (E, 2, 5, [T_NUMBER; T_PERCENT]) /\
+  prod_of iPow = Some (E, 3, 5, [T_NUMBER; T_CARET; T_NUMBER]) /\ prod_of iFrac = Some (E, 2, 5, [T_DECIMAL; T_NUMBER]).
+Proof. repeat split; vm_compute; reflexivity. Qed.
 Lemma prod_eqb_eq p l n f r : prod_eqb p l n f r = true -> prod_of p = Some (l, n, f, r).
 Proof.
   unfold prod_eqb. destruct (prod_of p) as [[[[l' n'] f'] r']|]; [|discriminate]. intros H.
@@ -367,6 +431,7 @@ Definition sum_with (f : expr -> nat) : list expr -> nat :=
 Fixpoint xsteps (e : expr) : nat :=
   match e with
   | XNum _ => 2 | XVar _ => 3 | XCell _ _ => 3 | XRange _ _ _ _ => 5
+  | XDec _ _ => 4 | XFrac _ => 3 | XPct _ => 3 | XPowLit _ _ => 4 | XStr _ => 2 | XErr _ => 2
   | XCall _ args => (4 + sum_with xsteps args)%nat
   | XNeg e => (2 + xsteps e)%nat
   | XBin _ l r => (xsteps l + xsteps r + 2)%nat
@@ -439,12 +504,41 @@ Proof.
   destruct P_closed as (PVS & PVar & PCellE & PCall0 & PSeq1 & PSeq1fn & PCall1 & PSeqC & PSeqCC & PCallN).
   destruct F_call as (HshFL & HESFL & HESC & HctxA1 & HctxC & HshF0 & HredSeq1 & HgoSeq1 & HshSeq1R & HredSeqC & HgoSC &
                       HshC & HredC1 & HredC2 & HshCR & HgoFL & HgoC).
-  induction e as [d|n|k lab|k1 l1 k2 l2|name args IHargs|e IH|b l r IHl IHr|e IH] using expr_ind';
-    intros Hwp st rest q HES Hgo Hent Hfol; pose proof (xfollow_follow _ _ Hfol) as Hfw.
+  destruct F_lit_closed as (LsAD & LsADN & LsAP & LsAC & LsACN & LsDN & PStr & PXl & PDec & PPct & PPow & PFrac).
+  induction e as [d|ip fp|fp|pn|pa pb|str|xe|n|k lab|k1 l1 k2 l2|name args IHargs|e IH|b l r IHl IHr|e IH] using expr_ind';
+    intros Hwp st rest q HES Hgo Hent Hfol; pose proof (xfollow_follow _ _ Hfol) as Hfw;
+    try (destruct (F_lit_shift _ HES) as (ShS & ShX & ShD)); try (destruct (F_lit_red _ Hfw) as (RS & RX & RDec & RPct & RPow & RFrac)).
   - (* number *)
     cbn [xtoks xval xsteps fst snd app].
     eapply rl_shift; [apply H_atom_shift; exact HES|]. cbn [lexeme].
     eapply (rl_final h _ _ _ _ _ _ _ _ _ q (ROk (VInt (digits_z d)), [])); [apply H_atom_red; exact Hfw|exact PA|apply pop1|exact Hgo|reflexivity].
+  - (* NUMBER DECIMAL NUMBER *)
+    cbn [xtoks xval xsteps fst snd app].
+    eapply rl_shift; [apply H_atom_shift; exact HES|]. cbn [lexeme].
+    eapply rl_shift; [exact LsAD|]. cbn [lexeme]. eapply rl_shift; [exact LsADN|]. cbn [lexeme].
+    eapply (rl_final h _ _ _ _ _ _ _ _ _ q (ROk (decimal_value ip fp), [])); [exact RDec|exact PDec|apply pop3|exact Hgo|reflexivity].
+  - (* DECIMAL NUMBER *)
+    cbn [xtoks xval xsteps fst snd app].
+    eapply rl_shift; [exact ShD|]. cbn [lexeme]. eapply rl_shift; [exact LsDN|]. cbn [lexeme].
+    eapply (rl_final h _ _ _ _ _ _ _ _ _ q (ROk (decimal_value [] fp), [])); [exact RFrac|exact PFrac|apply pop2|exact Hgo|reflexivity].
+  - (* NUMBER PERCENT *)
+    cbn [xwp] in Hwp. cbn [xtoks xval xsteps fst snd app].
+    eapply rl_shift; [apply H_atom_shift; exact HES|]. cbn [lexeme]. eapply rl_shift; [exact LsAP|]. cbn [lexeme].
+    eapply (rl_final h _ _ _ _ _ _ _ _ _ q (ROk (VFlt (Qmake (digits_z pn) 100)), [])); [exact RPct|exact PPct|apply pop2|exact Hgo|].
+    unfold sem_action. rewrite Hwp. reflexivity.
+  - (* NUMBER CARET NUMBER *)
+    cbn [xwp] in Hwp. cbn [xtoks xval xsteps fst snd app].
+    eapply rl_shift; [apply H_atom_shift; exact HES|]. cbn [lexeme].
+    eapply rl_shift; [exact LsAC|]. cbn [lexeme]. eapply rl_shift; [exact LsACN|]. cbn [lexeme].
+    eapply (rl_final h _ _ _ _ _ _ _ _ _ q (ROk (VInt (digits_z pa ^ digits_z pb)), [])); [exact RPow|exact PPow|apply pop3|exact Hgo|reflexivity].
+  - (* STRING *)
+    cbn [xtoks xval xsteps fst snd app].
+    eapply rl_shift; [exact ShS|]. cbn [lexeme].
+    eapply (rl_final h _ _ _ _ _ _ _ _ _ q (ROk (VText (removelast (tl str))), [])); [exact RS|exact PStr|apply pop1|exact Hgo|reflexivity].
+  - (* XLERROR: raised *)
+    cbn [xtoks xval xsteps fst snd app].
+    eapply rl_shift; [exact ShX|]. cbn [lexeme].
+    eapply (rl_final h _ _ _ _ _ _ _ _ _ q (RRaise (err_of_text xe), [])); [exact RX|exact PXl|apply pop1|exact Hgo|reflexivity].
   - (* variable *)
     cbn [xtoks xval xsteps app].
     eapply rl_shift; [apply F_var_shift; exact HES|]. cbn [lexeme].
@@ -607,7 +701,7 @@ Proof.
 Qed.
 Lemma xsteps_bound e : (xsteps e <= 4 * length (xtoks e))%nat.
 Proof.
-  induction e as [d|n|k lab|k1 l1 k2 l2|name args IHargs|e IH|b l r IHl IHr|e IH] using expr_ind';
+  induction e as [d|ip fp|fp|pn|pa pb|str|xe|n|k lab|k1 l1 k2 l2|name args IHargs|e IH|b l r IHl IHr|e IH] using expr_ind';
     cbn [xsteps xtoks length]; rewrite ?app_length; cbn [length]; try lia.
   destruct args as [|a r]; [cbn; lia|]. inversion IHargs as [|? ? Ha Hr]; subst.
   rewrite sum_with_cons. cbn [args_toks]. rewrite app_length. pose proof (sum_bound r Hr). lia.
